@@ -47,6 +47,38 @@ def connected_gate(B, bb):
     return False
 
 
+def is_gate_fn(P, name, _depth=0):
+    """a function of Connection whose every Ok return is dominated by the connected-state test: `f()?` then is the test"""
+    G = P.B(name)
+    if G is None or _depth > 1 or not name.startswith(CONN):
+        return False
+    oks = [bb for bb, j, st in G.stmts() if st['k'] == '=' and st['pl']['l'] == 0 and not st['pl'].get('p') and st['rv']['k'] == 'agg' and st['rv'].get('var') == 'Ok']
+    return bool(oks) and all(connected_gate(G, bb) for bb in oks)
+
+
+def gate_by_helper(P, B, bb):
+    """Is block bb dominated by the Continue edge of `helper()?` where helper is a gate function?"""
+    for (src, vals, dst) in dominating_edges(B, bb):
+        sd = B.switch_on_discr(src)
+        if not sd or 'ControlFlow' not in sd[1]:
+            continue
+        cont = [b_ for v_, b_ in sd[2] if v_ == 0]
+        if not cont or dst != cont[0]:
+            continue
+        d = B.single_def(sd[0]['l'])
+        if d is None or d[0] != 't' or callee_of(d[3])[0] != 'core::ops::try_trait::Try::branch':
+            continue
+        o = B.origin(d[3]['args'][0], through_calls=False) if True else None
+        base, _ = unwrap(B.origin(d[3]['args'][0]))
+        cands = []
+        if base is not None and base[0] == 'call':
+            cands.append(base[1])
+        for c_ in cands:
+            if c_ and is_gate_fn(P, c_):
+                return c_
+    return None
+
+
 def param_of(B, op):
     base, projs = unwrap(B.origin(op))
     for p in projs:
@@ -75,8 +107,9 @@ def run(ctx):
         writes = [(bb, t) for bb, t in B.calls() if is_call_to(t, CONN + 'send_control_message') or is_call_to(t, CONN + 'write_message')]
         if not ctx.anchor(bool(writes), CONN + op + ':write'):
             continue
-        if all(connected_gate(B, bb) for bb, t in writes):
-            ctx.ok('C07.1-state-gate', op, 'send is dominated by the connected test', ctx.where(B, writes[0][0]))
+        helpers = [gate_by_helper(P, B, bb) for bb, t in writes]
+        if all(connected_gate(B, bb) or h for (bb, t), h in zip(writes, helpers)):
+            ctx.ok('C07.1-state-gate', op, 'send is dominated by the connected test%s' % (' (through %s()?)' % [h for h in helpers if h][0].rsplit('::', 1)[1] if any(helpers) else ''), ctx.where(B, writes[0][0]))
         else:
             ctx.bad('C07.1-state-gate', op, '%s can write to the socket without having tested that the handshake completed' % op, ctx.where(B, writes[0][0]),
                     key='DOM:%s%s:write-before-connected' % (CONN, op))
